@@ -8,6 +8,9 @@ import (
 	"strconv"
 	"strings"
 	"text/template"
+	"unicode"
+	"unicode/utf16"
+	"unicode/utf8"
 
 	"github.com/robfig/soy/ast"
 	"github.com/robfig/soy/data"
@@ -159,7 +162,7 @@ func (s *state) walk(node ast.Node) {
 		s.js("null")
 	case *ast.StringNode:
 		s.js("'")
-		template.JSEscape(s.wr, []byte(node.Value))
+		jsEscape(s.wr, []byte(node.Value))
 		s.js("'")
 	case *ast.IntNode:
 		s.js(node.String())
@@ -195,7 +198,9 @@ func (s *state) walk(node ast.Node) {
 				s.js(",")
 			}
 			first = false
-			s.js("\"", k, "\"", ":")
+			s.js("\"")
+			jsEscape(s.wr, []byte(k))
+			s.js("\"", ":")
 			s.walk(node.Items[k])
 		}
 		s.js("}")
@@ -703,8 +708,27 @@ func (s *state) nodeFromValue(pos ast.Pos, val data.Value) ast.Node {
 func (s *state) writeRawText(text []byte) {
 	s.indent()
 	s.js(s.bufferName, " += '")
-	template.JSEscape(s.wr, text)
+	jsEscape(s.wr, text)
 	s.js("';\n")
+}
+
+// jsEscape writes the escaped form of the text, for use inside a quoted
+// JavaScript string.  (template.JSEscape writes a non-printable rune above
+// U+FFFF as \u followed by more than four hex digits, which JavaScript reads as
+// a different string; those are written as a surrogate pair here.)
+func jsEscape(w io.Writer, text []byte) {
+	var last = 0
+	for i := 0; i < len(text); {
+		var r, size = utf8.DecodeRune(text[i:])
+		if r >= 0x10000 && !unicode.IsPrint(r) {
+			template.JSEscape(w, text[last:i])
+			var r1, r2 = utf16.EncodeRune(r)
+			fmt.Fprintf(w, `\u%04X\u%04X`, r1, r2)
+			last = i + size
+		}
+		i += size
+	}
+	template.JSEscape(w, text[last:])
 }
 
 // block renders the given node to a temporary buffer and returns the string.
